@@ -153,6 +153,21 @@ func (p *Program) operandCode() ProgramCode {
 	return p.zeroExtended
 }
 
+// decodeInstr pre-decodes the instruction at pc (pc inside the blob). Operands are read from
+// the zero-extended code (A.4): an instruction near the end of the blob may take operand bytes
+// past it, and those bytes are zero.
+func (p *Program) decodeInstr(pc ProgramCounter) InstrMeta {
+	op := p.InstructionData[pc]
+	instr := InstrMeta{
+		PC:      pc,
+		Opcode:  op,
+		SkipLen: uint8(skip(int(pc), p.Bitmasks)),
+		Exec:    instrMetaExecForOpcode(op),
+	}
+	decodeOperands(&instr, p.operandCode(), p.Bitmasks)
+	return instr
+}
+
 // preDecodeBlocks performs a single-pass scan of the entire program blob,
 // populating Program.Instrs, Program.BlockAt, and Program.InstrIdxAt.
 // Called once at the end of DeBlobProgramCode.
@@ -160,10 +175,6 @@ func (p *Program) preDecodeBlocks() ExitReason {
 	idata := p.InstructionData
 	bitmask := p.Bitmasks
 	n := len(idata)
-
-	// Operands are read from the zero-extended code (A.4): an instruction near the end of
-	// the blob may take operand bytes past it, and those bytes are zero.
-	zeroExtended := p.operandCode()
 
 	p.Instrs = make([]InstrMeta, 0, n/4)
 	p.BlockAt = make([]*BlockMeta, n)
@@ -205,20 +216,10 @@ func (p *Program) preDecodeBlocks() ExitReason {
 			}
 			// An undefined opcode is not an error of the program: it executes as trap
 			// (instrMetaExecForOpcode maps it to instTrapMeta) if and when it is reached.
-			op := idata[pc]
-
-			skipLen := skip(int(pc), bitmask)
-
 			idx := len(p.Instrs)
-			p.Instrs = append(p.Instrs, InstrMeta{
-				PC:      pc,
-				Opcode:  op,
-				SkipLen: uint8(skipLen),
-				Exec:    instrMetaExecForOpcode(op),
-			})
+			p.Instrs = append(p.Instrs, p.decodeInstr(pc))
 			p.InstrIdxAt[pc] = int32(idx)
-
-			decodeOperands(&p.Instrs[idx], zeroExtended, bitmask)
+			op, skipLen := p.Instrs[idx].Opcode, p.Instrs[idx].SkipLen
 
 			if IsBlockTerminator(op) {
 				block.EndPC = pc
